@@ -396,7 +396,7 @@ theorem walkLoop_exact (e : Env) (wf : WF e) (t r : Nat) (fwd : Bool) (fuel : Na
       · simp only [hout, if_true] at hok
         exact Bool.noConfusion hok
       · simp only [hout, Bool.false_eq_true, if_false] at hok ⊢
-        exact ih _ _ _ hs.1 ⟨hw1.off_nonneg, hw1.off_le, hw1.done_le⟩
+        exact ih _ _ _ hs.1 (walkOk_advance e t wf _ _ _ hw1)
           (selectedOf_some e _ t _ [r] hsel') hlt' hacc' hok
     · have hc' : (scheduleSlot e σ t w).2.2 = false := by simpa using hc
       simp only [hc', Bool.not_false, if_true] at hok ⊢
